@@ -181,12 +181,13 @@ def case(word):
     i, n = 0, len(word)
 
     def lettercase(ch):
-        return 1 if ch.isupper() else 0
+        # letters of scripts without case (CJK, Arabic, ...) and title-case letters decide nothing: None = keep scanning
+        return 1 if ch.isupper() else 0 if ch.islower() else None
 
     while i < n:
         c = word[i]
         if c == "\\":
-            if i + 1 < n and word[i + 1].isalpha():
+            if i + 1 < n and lettercase(word[i + 1]) is not None:
                 return lettercase(word[i + 1])
             i += 2
             continue
@@ -206,7 +207,7 @@ def case(word):
                 while j < n and d > 0:
                     ch = word[j]
                     if ch == "\\":
-                        if j + 1 < n and word[j + 1].isalpha():
+                        if j + 1 < n and lettercase(word[j + 1]) is not None:
                             return lettercase(word[j + 1])
                         j += 2
                         continue
@@ -214,11 +215,12 @@ def case(word):
                         d += 1
                     elif ch == "}":
                         d -= 1
-                    elif ch.isalpha():
+                    elif lettercase(ch) is not None:
                         return lettercase(ch)
                     j += 1
-                i = j
-                continue
+                # bibtex.web "Check the special character (and return)": the token is decided at its first special
+                # character; no foreign control sequence and no letter in it => not a von token, whatever follows
+                return -1
             # a plain group: skipped whole
             d = 1
             j = i + 1
@@ -234,7 +236,7 @@ def case(word):
                 j += 1
             i = j
             continue
-        if c.isalpha():
+        if lettercase(c) is not None:
             return lettercase(c)
         i += 1
     return -1
